@@ -518,7 +518,6 @@ func (d *URIParamsD) Call(buf []byte, offs int, eof bool) (int, sipsp.ErrorHdr) 
 }
 func (d *URIParamsD) Snap(r *Rec, buf []byte) {
 	SnapURIParams(r, &d.L)
-	r.Val("sum(vNo)", int64(d.vno))
 }
 func (d *URIParamsD) Reset(how int) {
 	d.L.Reset()
@@ -543,7 +542,6 @@ func (d *URIHdrsD) Call(buf []byte, offs int, eof bool) (int, sipsp.ErrorHdr) {
 }
 func (d *URIHdrsD) Snap(r *Rec, buf []byte) {
 	SnapURIHdrs(r, &d.L)
-	r.Val("sum(vNo)", int64(d.vno))
 }
 func (d *URIHdrsD) Reset(how int) {
 	d.L.Reset()
